@@ -61,7 +61,7 @@ def _work(inp):
     try:
         traces, info = E.record(inp["cfg"], inp["cands"], inp["ballots"], mode=inp.get("mode", "explore"),
                                 max_paths=inp.get("max_paths", 300), names=inp.get("names"), cand_order=inp.get("cand_order"),
-                                seed=inp.get("seed", 0))
+                                seed=inp.get("seed", 0), omit_defaults=inp.get("omit_defaults", False))
     except BaseException as ex:  # machinery problem inside the recorder (BaseException: a dying worker would hang the pool)
         return [{"_machinery": "%s: %s" % (type(ex).__name__, ex), "_inp": inp}]
     for t in traces:
@@ -96,7 +96,7 @@ def inputs_exhaustive(rng, cands, rankings, max_ballots, weights, configs, per_b
     for bag in D.bags(rankings, max_ballots, weights):
         cfgs = [c for c in configs if not (need_int(c) and not D.is_integer_bag(bag))]
         for c in pick_configs(rng, cfgs, per_bag):
-            out.append({"cfg": c, "cands": list(cands), "ballots": bag, "mode": "explore"})
+            out.append({"cfg": c, "cands": list(cands), "ballots": bag, "mode": "explore", "omit_defaults": rng.random() < 0.3})
     return out
 
 
@@ -108,7 +108,8 @@ def inputs_sampled(rng, n, cand_range, max_ballots, config_fn, tied=False, ratio
         c = config_fn(rng, nc)
         need_int = c["xfer"] == "random" or c["rule"] == "PluralityVeto"
         bag = D.random_bag(rng, cands, max_ballots, tied=tied, rational=0 if need_int else rational, wmax=wmax)
-        out.append({"cfg": c, "cands": cands, "ballots": bag, "mode": "explore", "max_paths": max_paths, "seed": rng.randrange(10**6)})
+        out.append({"cfg": c, "cands": cands, "ballots": bag, "mode": "explore", "max_paths": max_paths, "seed": rng.randrange(10**6),
+                    "omit_defaults": rng.random() < 0.3})
     return out
 
 
